@@ -38,6 +38,7 @@ type Program struct {
 	modChanged bool
 	usedIntrinsics map[string]bool
 	missing []string
+	eventCache map[*ssa.Function]map[string]bool
 	implCache map[string][]implRec
 	mu sync.Mutex
 	contractDiffs []string
